@@ -321,7 +321,8 @@ def run(ctx):
     for i in live:
         fam[cases[i][3]] = fam.get(cases[i][3], 0) + 1
     ctx.cov['by_family'] = fam
-    ctx.cov['impl_distinct'] = len(recs)
+    ctx.cov['blocks'] = len(recs)
+    ctx.cov['impl_distinct'] = sum(1 for o in recs if 58 in o['block'])
     ctx.cov['accepted'] = sum(1 for o in recs if o['ok'])
     ctx.cov['rejected'] = sum(1 for o in recs if not o['ok'])
     ctx.cov['accepted_with_fold'] = sum(1 for o in recs if o['ok'] and any(10 in e['v'] for e in o['entries']))
@@ -334,7 +335,8 @@ def run(ctx):
     ctx.cov['rule'] = ('blocks of 0..2 (thorough: 3, sampled) fields from %d field shapes (regular, whitespace variants, bad names, bare CR, NUL, '
                        'obs-fold variants, framing fields) x line ends CRLF/LF/CRCRLF x 5 terminators, for both owners and strict/relaxed; every '
                        'block TLC packed from the MC domain; seeded random grammatical blocks up to 8 KiB with folds/duplicates and their '
-                       'single-byte mutations; a share of the C26 framing family. Cases are distinct (owner, mode, block) triples.' % len(FIELD_SHAPES))
+                       'single-byte mutations; a share of the C26 framing family. Cases are distinct (owner, mode, block) triples (blocks); non-trivial '
+                       '(impl_distinct / distinct_nontrivial) = the block has at least one colon, i.e. at least one field candidate.' % len(FIELD_SHAPES))
     ctx.assumptions += ['HttpHeader::parse(header_start, hdrLen, clen) is called on the block directly (as HttpRequest::parseHeader / HttpReply do after '
                         'Http1::Parser isolated it); obs-fold handling of Http1::Parser::unfoldMime is not on this path',
                         'field names and values stay below the 64 KB String limit',
